@@ -11,11 +11,25 @@ import (
 	"time"
 )
 
-type vSrc struct{ c uint64 }
+// The counter source. The real Start() launches a sampling goroutine (it samples at once with
+// time.Now() and then every 10 s of wall-clock time, under the meter's lock); the harness
+// drives the sampling step itself with synthetic instants while HOLDING that lock and with
+// `live` set, so whenever the background goroutine gets the lock it sees a zero counter and
+// its sample is the no-op the code defines for "nothing observed yet".
+type vSrc struct {
+	c    uint64
+	live bool
+}
 
-func (s *vSrc) Count() uint64      { return s.c }
-func (s *vSrc) TotalBytes() uint64 { return s.c }
-func (s *vSrc) NbRequests() uint64 { return s.c }
+func (s *vSrc) get() uint64 {
+	if !s.live {
+		return 0
+	}
+	return s.c
+}
+func (s *vSrc) Count() uint64      { return s.get() }
+func (s *vSrc) TotalBytes() uint64 { return s.get() }
+func (s *vSrc) NbRequests() uint64 { return s.get() }
 
 func vT(ns int64) time.Time { return time.Unix(0, ns) }
 
@@ -86,7 +100,11 @@ func vC20Run(k *vKit, c vSx) (obs vSx, failOracle, failDetail string, nontrivial
 		case 1:
 			t, cnt := op.l[1].i64(), op.l[2].u64()
 			src.c = cnt
+			imp.lock.Lock()
+			src.live = true
 			imp.doSample(vT(t))
+			src.live = false
+			imp.lock.Unlock()
 			r := []float64{imp.Xps10s(), imp.Xps30s(), imp.Xps300s()}
 			out = append(out, vL(vZ(1), vU(math.Float64bits(r[0])), vU(math.Float64bits(r[1])), vU(math.Float64bits(r[2]))))
 			// oracle
@@ -119,7 +137,11 @@ func vC20Run(k *vKit, c vSx) (obs vSx, failOracle, failDetail string, nontrivial
 		case 2:
 			t, cnt := op.l[1].i64(), op.l[2].u64()
 			src.c = cnt
+			imp.lock.Lock()
+			src.live = true
 			a := imp.sampleAverage(vT(t))
+			src.live = false
+			imp.lock.Unlock()
 			out = append(out, vL(vZ(2), vU(math.Float64bits(a))))
 			if math.IsNaN(a) || math.IsInf(a, 0) || a < 0 {
 				bad("finite-nonneg", fmt.Sprintf("average reports %v", a))
@@ -152,7 +174,15 @@ func vC20Run(k *vKit, c vSx) (obs vSx, failOracle, failDetail string, nontrivial
 				bad("average", fmt.Sprintf("zero counter reports %v", a))
 			}
 		case 3:
-			imp.started = true
+			// the real life-cycle call (public API), not a poke at the flag
+			if kind == 1 {
+				kr.Start()
+			} else {
+				kb.Start()
+			}
+			if !imp.started {
+				bad("refused", "Start() did not mark the meter started")
+			}
 			out = append(out, vL(vZ(3)))
 		case 4:
 			w := op.l[1].int()
@@ -196,6 +226,7 @@ func vC20Run(k *vKit, c vSx) (obs vSx, failOracle, failDetail string, nontrivial
 			out = append(out, vL(vZ(-1)))
 		}
 	}
+	imp.Close() // lets the sampling goroutine of a started meter exit at its next tick
 	nontrivial = len(fired) >= 2 || special
 	return vLs(out), failOracle, failDetail, nontrivial
 }
